@@ -93,9 +93,11 @@ def _limited(fn):
         _depth[0] += 1
         try:
             old = signal.signal(signal.SIGALRM, _on_alarm)
-            # after two expiries in this process later calls get a short limit, so that a change which makes
-            # many executions hang costs seconds, not hours (normal calls take milliseconds)
-            signal.setitimer(signal.ITIMER_REAL, CALL_LIMIT_S if _timeouts[0] < 2 else min(CALL_LIMIT_S, 3.0))
+            # after two expiries in this process later calls get a short limit, after ten a very short one, so that a
+            # change which makes many executions hang costs minutes, not hours (normal calls take milliseconds; on a
+            # tree where no call hangs the limit stays at CALL_LIMIT_S, so a slow machine cannot cause an alarm)
+            n = _timeouts[0]
+            signal.setitimer(signal.ITIMER_REAL, CALL_LIMIT_S if n < 2 else min(CALL_LIMIT_S, 3.0 if n < 10 else 0.5))
         except ValueError:  # not in the main thread: no watchdog
             _depth[0] -= 1
             return fn(*a, **k)
